@@ -38,13 +38,51 @@ package cache
 //@   assumed
 //@   requires[changes-the-list-needs-the-lock-exclusively]{C15} lruExclusive(c)
 //@   modifies heap
+// C05: the LRU binds a key to its cell once — AddIfAbsent on a key that is present hands back the cell that is bound
+// and leaves the binding alone (the rule's per-value state lives in that cell; replacing it on every check resets the
+// value's token bucket / last-pass time). container/list is outside the verified code: its methods are assumed to
+// relink elements and nothing else (an element's Value is never touched by the list).
+//@ extern (*container/list.List).MoveToFront(l, e)
+//@   panics never
+//@   modifies all(list.Element.next), all(list.Element.prev), all(list.Element.list), all(list.List.len)
+//@ extern (*container/list.List).PushFront(l, v) r
+//@   panics never
+//@   ensures r != nil && fresh(r) && r.Value == v
+//@   modifies all(list.Element.next), all(list.Element.prev), all(list.Element.list), all(list.List.len)
+//@ extern (*container/list.List).Remove(l, e) r
+//@   panics never
+//@   modifies all(list.Element.next), all(list.Element.prev), all(list.Element.list), all(list.List.len)
+//@ extern (*container/list.List).Len(l) r
+//@   panics never
+//@   modifies nothing
+//@ extern (*container/list.List).Back(l) r
+//@   panics never
+//@   ensures r == nil || allocated(r)
+//@   modifies nothing
+// the eviction callback (the wrapper installs none) is given the evicted pair and may not touch the cache
+//@ callback EvictCallback(key, value)
+//@   modifies nothing
+//@ spec func entryOf(el) = cast(dynptr(el.Value), entry)
+//@ spec func isEntry(el) = el != nil && allocated(el) && typeis(el.Value, "*core/hotspot/cache.entry") && entryOf(el) != nil && allocated(entryOf(el))
 //@ func (c *LRU) AddIfAbsent(key, value) priorValue
-//@   assumed
+//@   props C05
 //@   requires[changes-the-list-needs-the-lock-exclusively]{C15} lruExclusive(c)
+//@   requires[lru-as-built-by-the-wrapper]{C05} c != nil && c.evictList != nil && c.onEvict == nil
+//@   requires[the-item-map-holds-entries]{C05} has(c.items, key) ==> isEntry(c.items[key])
+//@   ensures[an-existing-binding-is-returned] old(has(c.items, key)) ==> priorValue == old(entryOf(c.items[key]).value)
+//@   ensures[an-existing-binding-is-kept] old(has(c.items, key)) ==> has(c.items, key) && c.items[key] == old(c.items[key]) && entryOf(c.items[key]) == old(entryOf(c.items[key])) && entryOf(c.items[key]).value == old(entryOf(c.items[key]).value)
+//@   ensures[a-new-key-reports-no-prior-value] !old(has(c.items, key)) ==> priorValue == nil
+//@   ensures[the-item-map-still-holds-entries] has(c.items, key) ==> isEntry(c.items[key]) && (old(has(c.items, key)) || entryOf(c.items[key]).value == value)
 //@   modifies heap
 //@ func (c *LRU) Get(key) (value, isFound)
-//@   assumed
+//@   props C05
 //@   requires[moves-the-element-to-the-front-needs-the-lock-exclusively]{C15} lruExclusive(c)
+//@   requires[lru-as-built-by-the-wrapper]{C05} c != nil && c.evictList != nil && c.onEvict == nil
+//@   requires[the-item-map-holds-entries]{C05} has(c.items, key) ==> isEntry(c.items[key])
+//@   ensures[found-iff-bound] isFound <==> old(has(c.items, key))
+//@   ensures[the-bound-cell-is-returned] isFound ==> value == old(entryOf(c.items[key]).value)
+//@   ensures[the-binding-is-kept] old(has(c.items, key)) ==> has(c.items, key) && c.items[key] == old(c.items[key]) && entryOf(c.items[key]) == old(entryOf(c.items[key])) && entryOf(c.items[key]).value == old(entryOf(c.items[key]).value)
+//@   ensures[nothing-is-bound-by-a-lookup] !old(has(c.items, key)) ==> !has(c.items, key)
 //@   modifies heap
 //@ func (c *LRU) Remove(key) isFound
 //@   assumed
